@@ -255,6 +255,27 @@ pub fn run(rep: &mut Report) {
     let i64l: Vec<i64> = dl.iter().filter(|v| **v >= i64::MIN as i128 && **v <= i64::MAX as i128).map(|v| *v as i64).collect();
     sweep(rep, "c02.from_trunc", i64l.len() as u64, |i, out| j_from_trunc(i64l[i as usize], out));
     sweep(rep, "c02.try_trunc+trunc", dl.len() as u64, |i, out| j_try_trunc(dl[i as usize], out));
+    // interior scan (round 8): evenly spread, unremarkable counts / factors / fields
+    {
+        let nsc: u64 = if deep { 30_000_000 } else { 2_000_000 };
+        rep.bound("interior_scan_points", nsc);
+        sweep(rep, "c02.scan_from_total", nsc, |i, out| j_from_total(if i % 8 == 7 { ((lattice::scan_point(i, 1, i64::MIN as i128, i64::MAX as i128) << 64) | lattice::scan_point(i, 2, 0, u64::MAX as i128)) } else { scan_dur(i, 0) }, out));
+        sweep(rep, "c02.scan_total_ns", nsc, |i, out| j_total(scan_dur(i, 1), out));
+        sweep(rep, "c02.scan_from_trunc", nsc, |i, out| j_from_trunc(scan_i64(i, 2), out));
+        sweep(rep, "c02.scan_try_trunc", nsc, |i, out| j_try_trunc(scan_dur(i, 3), out));
+        sweep(rep, "c02.scan_from_parts", nsc, |i, out| j_from_parts(lattice::scan_point(i, 4, i16::MIN as i128, i16::MAX as i128) as i16, lattice::scan_point(i, 5, 0, u64::MAX as i128) as u64, out));
+        sweep(rep, "c02.scan_unit", 3 * 9 * (nsc / 8), |i, out| j_unit((i % 3) as usize, scan_i64(i / 27, 0), UNITS[((i / 3) % 9) as usize], out));
+        sweep(rep, "c02.scan_compose", nsc / 2, |i, out| {
+            // fields: unremarkable values below a few thousand of each unit, one field in eight over its whole u64 range
+            let mut f = [0u64; 7];
+            for (j, slot) in f.iter_mut().enumerate() {
+                let k = i.wrapping_mul(7).wrapping_add(j as u64);
+                *slot = if (i + j as u64) % 8 == 0 { lattice::scan_point(k, j % 6, 0, u64::MAX as i128) as u64 } else { lattice::scan_point(k, j % 6, 0, 5000) as u64 };
+            }
+            j_compose([-1i8, 1, 0, i8::MIN, i8::MAX, -1, 1, 1][(i % 8) as usize], f, out)
+        });
+        sweep(rep, "c02.scan_std", nsc / 2, |i, out| j_std(if i % 4 == 0 { lattice::scan_point(i, 0, 0, u64::MAX as i128) as u64 } else { lattice::scan_point(i, 1, 0, 400_000_000_000) as u64 }, lattice::scan_point(i, 2, 0, 999_999_999) as u32, out));
+    }
     let nk = kl.len() as u64;
     for form in 0..3 {
         let k = &kl;
